@@ -14,7 +14,7 @@ import (
 // channel field ch.
 func (r *Run) litDoes(info *types.Info, lit *ast.FuncLit, fn *types.Func, ch *types.Var) bool {
 	found := false
-	ast.Inspect(lit.Body, func(nd ast.Node) bool {
+	inspect(lit.Body, func(nd ast.Node) bool {
 		switch x := nd.(type) {
 		case *ast.CallExpr:
 			if fn != nil && r.P.CalleeFunc(info, x) == fn {
@@ -42,7 +42,7 @@ func init() {
 			info := f.Pkg.TypesInfo
 			list := r.P.FuncObj("storage/locations", "StorageLocation.List")
 			var loop *ast.RangeStmt
-			ast.Inspect(f.Decl.Body, func(nd ast.Node) bool {
+			inspect(f.Decl.Body, func(nd ast.Node) bool {
 				if rs, ok := nd.(*ast.RangeStmt); ok {
 					if call, ok := ast.Unparen(rs.X).(*ast.CallExpr); ok && r.P.CalleeFunc(info, call) == list {
 						loop = rs
@@ -57,12 +57,12 @@ func init() {
 			r.Site(loop.Pos(), "LoadCheckpoint: selection loop over stored files")
 			// does the loop stop at the first *.snapshot?
 			firstHit := false
-			ast.Inspect(loop.Body, func(nd ast.Node) bool {
+			inspect(loop.Body, func(nd ast.Node) bool {
 				if is, ok := nd.(*ast.IfStmt); ok {
 					if !containsString(info, is.Cond, ".snapshot") {
 						return true
 					}
-					ast.Inspect(is.Body, func(m ast.Node) bool {
+					inspect(is.Body, func(m ast.Node) bool {
 						if b, ok := m.(*ast.BranchStmt); ok && b.Tok == token.BREAK {
 							firstHit = true
 						}
@@ -88,7 +88,7 @@ func init() {
 			var guard *ast.IfStmt
 			var best types.Object
 			var cand ast.Expr
-			ast.Inspect(loop.Body, func(nd ast.Node) bool {
+			inspect(loop.Body, func(nd ast.Node) bool {
 				is, ok := nd.(*ast.IfStmt)
 				if !ok {
 					return true
@@ -121,7 +121,7 @@ func init() {
 				"no candidate yet || snapshot.Id > best.Id")
 			// the selected snapshot is what gets loaded
 			used := false
-			ast.Inspect(f.Decl.Body, func(nd ast.Node) bool {
+			inspect(f.Decl.Body, func(nd ast.Node) bool {
 				if id, ok := nd.(*ast.Ident); ok && id.Pos() > loop.End() && info.Uses[id] == best {
 					used = true
 				}
@@ -177,7 +177,7 @@ func init() {
 			snapParam := f.Obj.Type().(*types.Signature).Params().At(0)
 			idF := r.P.Field("storage/snapshots", "jobSnapshot", "id")
 			okNotify := false
-			ast.Inspect(f.Decl.Body, func(nd ast.Node) bool {
+			inspect(f.Decl.Body, func(nd ast.Node) bool {
 				send, ok := nd.(*ast.SendStmt)
 				if !ok || prog.SelField(info, send.Chan) != retained {
 					return true
@@ -195,7 +195,7 @@ func init() {
 			}
 			// the completed list becomes exactly [snap]
 			okReplace := false
-			ast.Inspect(f.Decl.Body, func(nd ast.Node) bool {
+			inspect(f.Decl.Body, func(nd ast.Node) bool {
 				as, ok := nd.(*ast.AssignStmt)
 				if !ok || len(as.Lhs) != 1 || prog.SelField(info, as.Lhs[0]) != comp {
 					return true
@@ -212,7 +212,7 @@ func init() {
 			// the obsolete paths are built with the same name scheme as the written file
 			ps := r.P.FuncObj("storage/snapshots", "pathSegment")
 			nps := 0
-			ast.Inspect(f.Decl.Body, func(nd ast.Node) bool {
+			inspect(f.Decl.Body, func(nd ast.Node) bool {
 				if call, ok := nd.(*ast.CallExpr); ok && r.P.CalleeFunc(info, call) == ps {
 					nps++
 				}
@@ -233,7 +233,7 @@ func init() {
 			r.Site(f.Decl.Pos(), "id comparison guarding the replacement of completedSnapshots")
 			// accepted: some comparison between two jobSnapshot.id values on the path to the replacement
 			compares := false
-			ast.Inspect(f.Decl.Body, func(nd ast.Node) bool {
+			inspect(f.Decl.Body, func(nd ast.Node) bool {
 				b, ok := nd.(*ast.BinaryExpr)
 				if !ok {
 					return true
@@ -248,7 +248,7 @@ func init() {
 			})
 			if !compares {
 				var pos token.Pos = f.Decl.Pos()
-				ast.Inspect(f.Decl.Body, func(nd ast.Node) bool {
+				inspect(f.Decl.Body, func(nd ast.Node) bool {
 					if as, ok := nd.(*ast.AssignStmt); ok && len(as.Lhs) == 1 && prog.SelField(info, as.Lhs[0]) == comp {
 						pos = as.Pos()
 					}
@@ -264,7 +264,7 @@ func init() {
 			f := r.P.Func("storage/locations", "(*S3Location).Remove")
 			info := f.Pkg.TypesInfo
 			r.Site(f.Decl.Pos(), "S3Location.Remove error accumulation")
-			ast.Inspect(f.Decl.Body, func(nd ast.Node) bool {
+			inspect(f.Decl.Body, func(nd ast.Node) bool {
 				es, ok := nd.(*ast.ExprStmt)
 				if !ok {
 					return true
@@ -279,7 +279,7 @@ func init() {
 
 func containsString(info *types.Info, e ast.Node, s string) bool {
 	found := false
-	ast.Inspect(e, func(nd ast.Node) bool {
+	inspect(e, func(nd ast.Node) bool {
 		if ex, ok := nd.(ast.Expr); ok {
 			if tv, ok := info.Types[ex]; ok && tv.Value != nil && tv.Value.ExactString() == "\""+s+"\"" {
 				found = true
@@ -296,7 +296,7 @@ func containsString(info *types.Info, e ast.Node, s string) bool {
 func (r *Run) isOrderPreservingDescending(f *prog.FuncInfo) bool {
 	info := f.Pkg.TypesInfo
 	ok := false
-	ast.Inspect(f.Decl.Body, func(nd ast.Node) bool {
+	inspect(f.Decl.Body, func(nd ast.Node) bool {
 		call, isCall := nd.(*ast.CallExpr)
 		if !isCall {
 			return true
@@ -319,7 +319,7 @@ func (r *Run) isOrderPreservingDescending(f *prog.FuncInfo) bool {
 	}
 	// the encoded value must be order-reversed
 	reversed := false
-	ast.Inspect(f.Decl.Body, func(nd ast.Node) bool {
+	inspect(f.Decl.Body, func(nd ast.Node) bool {
 		switch x := nd.(type) {
 		case *ast.BinaryExpr:
 			if x.Op == token.SUB && r.isParam(f, x.Y, 0) {
